@@ -544,7 +544,16 @@ def _validate(run, name, traces, registered, chunk):
     return sub, rejects
 
 
-def check(run, replay_path=None):  # noqa: ARG001, C901, PLR0912, PLR0915
+def check(run, replay_path=None):  # noqa: ARG001
+    try:
+        _check(run)
+    finally:
+        for name in os.listdir(SPEC_DIR):
+            if name.startswith('_gen_c17_'):
+                os.remove(os.path.join(SPEC_DIR, name))
+
+
+def _check(run):  # noqa: C901, PLR0912, PLR0915
     import sdc11073.definitions_sdc  # noqa: F401
     from sdc11073.httpserver.compression import CompressionHandler
     registered = list(CompressionHandler.available_encodings)
@@ -666,13 +675,11 @@ def check(run, replay_path=None):  # noqa: ARG001, C901, PLR0912, PLR0915
     run.note('negotiated_codings', chosen)
     if not any(k.endswith(':gzip') for k in chosen) or 'direct:body' not in outcomes or 'direct:reject' not in outcomes:
         raise MachineryError('vacuous run: no coding ever negotiated or no stream ever decoded / rejected')
-    for name in os.listdir(SPEC_DIR):
-        if name.startswith('_gen_c17_'):
-            os.remove(os.path.join(SPEC_DIR, name))
     run.assumptions += [
         'chunk trailers (fields after the last chunk) are not produced by the code under test and not enumerated',
         'chunk-size lines stay below the 16 byte limit of HTTPReader._read_until (sizes < 16^6, extension ";a=1")',
-        'sloppy size spellings with one sensible reading (surrounding white space, "-0") may be rejected or read so',
+        'sloppy size spellings with one sensible reading (surrounding white space, "0x" prefix, "-0") and a stream that '
+        'ends inside the terminator after the last "0" may be rejected or read in that sense',
         'an Accept-Encoding entry with a malformed q value may be read either way; duplicates: any listed q counts',
         'no Accept-Encoding header / an empty one: nothing was declared acceptable, so only "no coding" is allowed',
         'a coding that is registered but disabled in the local configuration may still be DEcoded (no misinterpretation)',
